@@ -108,11 +108,12 @@ pub trait MacroApi {
     #[endpoint(method = GET, path = "/m/attrs/{a}/{b}/{c}", accept = ConjureResponseDeserializer)]
     fn attrs(
         &self,
-        #[path] a: &Echo,
-        #[path] b: &Echo,
+        // declared in another order than the template names them (arguments are matched by name, not by position)
         #[path(name = "c")] c: i32,
         #[query(name = "q1")] q: &Echo,
+        #[path] b: &Echo,
         #[header(name = "X-H1")] h: &Echo,
+        #[path] a: &Echo,
         #[query(name = "ls", encoder = DisplaySeqEncoder)] ls: &[String],
     ) -> Result<String, Error>;
 
@@ -188,11 +189,12 @@ pub trait AsyncMacroApi {
     #[endpoint(method = GET, path = "/m/attrs/{a}/{b}/{c}", accept = ConjureResponseDeserializer)]
     async fn attrs(
         &self,
-        #[path] a: &Echo,
-        #[path] b: &Echo,
+        // declared in another order than the template names them (arguments are matched by name, not by position)
         #[path(name = "c")] c: i32,
         #[query(name = "q1")] q: &Echo,
+        #[path] b: &Echo,
         #[header(name = "X-H1")] h: &Echo,
+        #[path] a: &Echo,
         #[query(name = "ls", encoder = DisplaySeqEncoder)] ls: &[String],
     ) -> Result<String, Error>;
 
@@ -387,7 +389,7 @@ macro_rules! mac_calls {
                 "optRet" => $w!(c.opt_ret()).map(|v| json!(v)),
                 "attrs" => {
                     let e = |n: &str| -> Result<Echo, String> { Ok(Echo(arg::<String>(args, n)?)) };
-                    $w!(c.attrs(&e("b")?, &e("bee")?, arg(args, "sea")?, &e("pq")?, &e("hh")?, &arg::<Vec<String>>(args, "ls")?)).map(|v| json!(v))
+                    $w!(c.attrs(arg(args, "sea")?, &e("pq")?, &e("bee")?, &e("hh")?, &e("b")?, &arg::<Vec<String>>(args, "ls")?)).map(|v| json!(v))
                 }
                 other => return Err(format!("endpoint {other} has no macro twin")),
             })
